@@ -129,7 +129,7 @@ class Generator:
             Options passed to :meth:`yastn.linalg.truncation_mask`.
             It includes information on how to truncate the Schmidt values.
         """
-        parameters = {**self.parameters, **parameters}
+        parameters = {**self.parameters, **(parameters or {})}
         c2 = latex2term(H_str, parameters)
         c3 = self._term2Hterm(c2, self._ops.to_dict(), parameters)
         if opts is None:
@@ -153,7 +153,7 @@ class Generator:
         -------
         yastn.tn.mps.MpsMpoOBC
         """
-        parameters = {**self.parameters, **parameters}
+        parameters = {**self.parameters, **(parameters or {})}
         c3 = self._term2Hterm(templete, self._ops.to_dict(), parameters)
         return generate_mpo(self._I, c3)
 
